@@ -12,6 +12,8 @@ import Driver.Sweep2
 import Driver.Export
 import Driver.Progress
 import Driver.Bool3
+import Driver.PropInterp
+import Driver.Arrange2
 import Driver.BoolAsm
 import Driver.EdgeOp
 import Driver.CsgBatch
@@ -40,6 +42,8 @@ def dispatch (line : String) : String :=
   | "export" :: rest => ExportDrv.handle rest
   | "progress" :: rest => ProgressDrv.handle rest
   | "bool3" :: rest => Bool3Drv.handle rest
+  | "propinterp" :: rest => PropInterpDrv.handle rest
+  | "arr2" :: rest => Arrange2.handle rest
   | "boolasm" :: rest => BoolAsmDrv.handle rest
   | "edgeop" :: rest => EdgeOpDrv.handle rest
   | "csgbatch" :: rest => CsgBatchDrv.handle rest
